@@ -747,7 +747,15 @@ class AttrGen:
         locs = [self.location(depth - 1) for _ in range(r.choice([0, 1, 2, 3]))]
         meta = b.NoneAttr()
         if r.random() < .25 and "fused_meta" not in self.avoid:
-            meta = self.attr(0)
+            # metadata never contains a location: the printer drops the `loc(` wrapper of every location nested in a
+            # location, which the attribute grammar cannot read back (out of scope while fused<...> is unparsable anyway)
+            for _ in range(10):
+                meta = self.attr(0)
+                if not any(isinstance(n, (b.UnknownLoc, b.FileLineColLoc, b.NameLoc, b.CallSiteLoc, b.FusedLoc, b.NoneAttr))
+                           for n, _p, _s in walk(meta)):
+                    break
+            else:
+                meta = b.UnitAttr()
         return b.FusedLoc(b.ArrayAttr(locs), meta)
 
     def opaque_attr(self):
